@@ -5,6 +5,8 @@
 //!   vfreezer [--seed S] [--tier quick|thorough]
 //!            [threads=N files_histories=N freezer_histories=N time_cap_s=N]
 //!            [only=directed:K|files:K|freezer:K]   re-run one job of the same (seed, tier)
+//!            [only=sync | nosync=1 | sync_runs=N sync_rounds=N keep_log=PREFIX]
+//!   vfreezer sync-child dir=DIR mark=FILE rounds=N   (the traced child of the sync monitor)
 
 mod blocks;
 mod crash;
@@ -12,6 +14,7 @@ mod ffwrap;
 mod files_engine;
 mod freezer_engine;
 mod stats;
+mod sync_monitor;
 
 use serde_json::json;
 use stats::Stats;
@@ -25,7 +28,10 @@ retrieve outside 1..n is None (also when random-access reads happen between the 
 between synced and final size, new head file missing or empty at a roll-over): reopen is Ok, yields a prefix 1..n of the \
 appended items byte for byte with n >= #items whose data and 12-byte index entry lie inside the cuts (>= #synced items), \
 and further append/retrieve/truncate/reopen behave per the model on that prefix; same through Freezer with real blocks \
-(retrieve == block.data(), tip re-derived: an unlinked block is refused, a linked one accepted)";
+(retrieve == block.data(), tip re-derived: an unlinked block is refused, a linked one accepted); \
+syscall level (child under strace, page-cache model per file): whenever Freezer::freeze returned Ok with a non-empty result (full pass, \
+pass cut short by the stop flag, pass ended by a missing block, roll-over inside the pass, pass after truncate / re-open) and whenever \
+FreezerFiles::sync_all returned Ok, no write/ftruncate/creation of INDEX or a blk file is left without a later fsync of that file";
 
 pub fn panic_msg(p: &Box<dyn std::any::Any + Send>) -> String {
     if let Some(s) = p.downcast_ref::<String>() {
@@ -138,6 +144,9 @@ fn supervise(args: &Args, time_cap: Duration) -> ! {
 
 fn main() {
     let args = Args::parse();
+    if args.engine == "sync-child" {
+        std::process::exit(sync_monitor::child(&args));
+    }
     let tier = args.tier;
     let time_cap = Duration::from_secs(args.get_u64("time_cap_s", tier.pick(75, 14 * 60)));
     if std::env::var("VFREEZER_CHILD").is_err() && args.get_str("inprocess").is_none() {
@@ -188,8 +197,20 @@ fn main() {
             b += 1;
         }
     }
+    // The syscall-level durability monitor (own strace'd children) runs BEFORE the workers start:
+    // a fork+exec while a worker holds a `Freezer` would duplicate its FLOCK descriptor for a
+    // moment and make the worker's next `Freezer::open` fail with "would block".
+    let only_sync = args.get_str("only") == Some("sync");
+    let sync_result = if args.get_str("nosync").is_none() && (only_sync || args.get_str("only").is_none()) {
+        Some(sync_monitor::run(&args))
+    } else {
+        None
+    };
+    if only_sync {
+        jobs.clear();
+    }
     // replay of a single job: only=directed:K | files:K | freezer:K
-    if let Some(only) = args.get_str("only") {
+    if let Some(only) = args.get_str("only").filter(|o| *o != "sync") {
         let (kind, k) = only
             .split_once(':')
             .expect("only=<directed|files|freezer>:<index>");
@@ -370,6 +391,11 @@ fn main() {
         }
     }
 
+    if let Some(j) = &sync_result {
+        report.merge_json(j);
+        sync_monitor::requirements(&mut report);
+    }
+
     let skipped = jobs.len() - done;
     report.note("jobs_planned", json!(jobs.len()));
     report.note("jobs_skipped_by_time_cap", json!(skipped));
@@ -389,11 +415,11 @@ fn main() {
     );
     report.assume("a crash leaves every file as a prefix of what was written (append-only files, no torn/garbled bytes)");
     report.assume("data files and INDEX are persisted independently; within the data files a newer file has no bytes while an older one is short");
-    report.assume("everything written before the last sync_all is durable, including data files rolled over before it (the code fsyncs only the head data file and INDEX, and never the directory)");
+    report.assume("byte-cut crash states: everything written before the last sync_all is durable, including data files rolled over before it (sync_all fsyncs only the head data file and INDEX; that a rolled-over file is fsynced when it is closed, and that every freeze / sync_all return leaves no unsynced write behind, is judged separately by the syscall-level sync monitor; the directory is never fsynced)");
     report.assume("tmpfs (/dev/shm) file semantics stand in for the production file system");
 
     // a run that observed too little is inconclusive
-    let q = |a: u64, b: u64| tier.pick(a, b);
+    let q = |a: u64, b: u64| if only_sync { 0 } else { tier.pick(a, b) };
     report.require("files.histories", q(100, 1500));
     report.require("files.op.append", q(1000, 20000));
     report.require("files.op.truncate.effective", q(100, 2000));
